@@ -116,7 +116,7 @@ theorem step_invS {s s' : Sys} {ev : Ev} (inv : InvS s) (hg : ∀ h, (s.handles 
     · have hle := Nat.le_trans (hre (Cfg.fixed_recheck inv.cfg)) (hg h)
       exact (inv.setBundle e.slot b' _ hf hle).of_same rfl rfl rfl rfl rfl
   | loadIdx k gIx =>
-    obtain ⟨hgi, _, rfl | ⟨b, st, hle, hf, _, rfl⟩⟩ := inv_loadIdx hs
+    obtain ⟨hgi, _, rfl | ⟨b, b', hle, hf, _, rfl⟩⟩ := inv_loadIdx hs
     · exact inv
     · exact inv.setBundle k b _ hf (Nat.le_trans hle hgi)
   | consBegin h =>
@@ -416,7 +416,7 @@ theorem step_gen_mono {s s' : Sys} {ev : Ev} (inv : InvS s) (hs : step s ev = so
       · subst hj; simp
       · simp [hj]
   | loadIdx k gIx =>
-    obtain ⟨_, _, rfl | ⟨b, st, _, _, _, rfl⟩⟩ := inv_loadIdx hs
+    obtain ⟨_, _, rfl | ⟨b, b', _, _, _, rfl⟩⟩ := inv_loadIdx hs
     · exact ⟨fun _ => Nat.le_refl _, Nat.le_refl _⟩
     · refine ⟨fun j => ?_, Nat.le_refl _⟩
       by_cases hj : j = k
